@@ -156,7 +156,10 @@ class Kernel:
                 # parameters are replaced by the caller's argument expressions, so `n_elements(self)` is `self.len() as f64` *of
                 # the caller's self* (arrays are not scalar terms and cannot be passed as such)
                 try:
-                    hret = ds(hb.return_expr())
+                    # the mutation-tracked body: a helper that updates its (by-value) parameters with `+=` returns the *updated*
+                    # values – read from the untracked body they would silently be the incoming ones
+                    thb = self.prog.tracked(hb) if hasattr(self.prog, "tracked") else hb
+                    hret = ds(thb.return_expr())
                     straight = not any(isinstance(x_, tuple) and x_ and x_[0] == "phi" for x_ in walk(hret)) and \
                         not any(hb.term(b_)["k"] == "switch" for b_ in hb.live_blocks())
                 except Exception:
